@@ -14,8 +14,15 @@ from ..trace import snap
 from . import schema_common as sc
 
 PROP = "C08"
-THEOREMS = []
-FACT_LEMMAS = []
+THEOREMS = ["C08_inventory", "C08_summaries_checked", "C08_entries_summarised_read_only", "C08_analysis_sound",
+            "C08_entry_points_read_only", "C08_writers"]
+FACT_LEMMAS = ["C08_summaries_checked / C08_entries_summarised_read_only / C08_writers are closed computations on "
+               "Gen/ReadOnlyGen.v (abstraction of the 141 functions reachable from the validation entry points)"]
+DEPENDS = ["Taint.v", "Gen/ReadOnlyGen.v", "Proofs/TaintProof.v", "Proofs/C08Proof.v", "Properties/C08.v"]
+SPEC_VO = ["Taint.vo"]
+EXTRA_TRUST = ["harness/readonly.py: by-name call resolution, per-function summaries (re-checked in Coq), abstraction of call sites "
+               "by the callee's summary, variable versions inside compound statements, the tables of builtin read-only / mutating "
+               "methods and of dynamic call targets; callables.py functions are pure by the fragment accepted by the callable translator"]
 ASSUMPTIONS = ["real thread schedules are not modelled: what is shown is that no shared object is written, from which "
                "schedule-independence follows for readers; an 8-thread run is part of the thorough oracle pass, as a test"]
 
